@@ -323,6 +323,9 @@ type c15T5 struct {
 type c15T6 map[string]*c15T2
 type c15T7 []c15T4
 
+// which of the values below have a self-referential type (the class of finding F-C15-2)
+var c15Recursive = map[int]bool{3: true, 11: true}
+
 var c15GenValues = []any{c15T0{}, &c15T1{}, c15T2{}, &c15T3{}, c15T4{}, c15T5{}, c15T6{}, c15T7{}, 3, "s", []int{1}, map[string]c15T3{}}
 
 // ---------------------------------------------------------------- executing one call
@@ -672,6 +675,20 @@ func runC15Child(c hx.Case) any {
 	}
 	out["kind"] = kind
 	out["sampleVerdict"] = clip(ref[0], 120)
+	vk := map[string]int{} // how the calls of this case end when run alone (accepted / rejected / not routed …)
+	for _, v := range ref {
+		switch {
+		case strings.HasPrefix(v, "ok"), strings.HasPrefix(v, "route "), strings.HasPrefix(v, "{"):
+			vk["accepted"]++
+		case strings.HasPrefix(v, "route-error"):
+			vk["notRouted"]++
+		case strings.HasPrefix(v, "panic"):
+			vk["panic"]++
+		default:
+			vk["rejected"]++
+		}
+	}
+	out["verdictKinds"] = vk
 	return out
 }
 
@@ -735,6 +752,12 @@ func cmpC15(c hx.Case, impl any, reply map[string]any) hx.Verdict {
 	}
 	// the detector is sound, not complete: a race it reports must be in the model; a race of the model may go unreported
 	imOK := (!iRace || jbool(model, "race")) && iDiv == jbool(model, "diverge") && iDoc == jbool(model, "docChanged")
+	if len(jlist(reply["excl"])) > 0 {
+		// inside a known-finding class what shows depends on the schedule (and on whether the detector sees it): the
+		// model gives the upper bound `may`; the defect is "present as recorded" when the observation stays within it
+		may, _ := reply["may"].(map[string]any)
+		imOK = (!iRace || jbool(may, "race")) && (!iDiv || jbool(may, "diverge")) && (!iDoc || jbool(may, "docChanged"))
+	}
 	isOK := iRace == jbool(spec, "race") && iDiv == jbool(spec, "diverge") && iDoc == jbool(spec, "docChanged")
 	return hx.Verdict{IM: imOK, IS: isOK, Detail: strings.TrimSpace(detail)}
 }
@@ -1104,7 +1127,11 @@ func (g *c15Gen) call(kind string, doc map[string]any) map[string]any {
 		}
 		c["opts"] = opts
 	case "gen":
-		c["type"] = g.r.Intn(len(c15GenValues))
+		t := g.r.Intn(len(c15GenValues))
+		c["type"] = t
+		if c15Recursive[t] {
+			c["rec"] = true
+		}
 		opts := []any{}
 		if g.r.Chance(30) {
 			opts = append(opts, "allExported")
@@ -1176,7 +1203,12 @@ func c15SinkCall(kind string, variant int) map[string]any {
 		return map[string]any{"k": "visit", "schema": []string{"S0", "S1"}[variant%2],
 			"value": []string{`[{"name":"ab","tags":["a","a"]}]`, `{"name":"abab"}`}[variant%2], "opts": [][]any{{"multi"}, {"asreq", "defaults"}}[variant%2]}
 	default:
-		return map[string]any{"k": "gen", "type": 1 + variant%3, "opts": []any{}}
+		t := 1 + variant%3
+		c := map[string]any{"k": "gen", "type": t, "opts": []any{}}
+		if c15Recursive[t] {
+			c["rec"] = true
+		}
+		return c
 	}
 }
 
